@@ -140,6 +140,43 @@ def write_replay(prop, f, run, extra=None):
     return p
 
 
+# Properties the bounded enumerations can observe (their failures carry these tags): E-hist = short histories against a reference model,
+# E-dmg = single-site damage over a family of WAL layouts
+FALLBACKS = {
+    'E-dmg': ('C01', 'C07', 'C08', 'C09', 'C10', 'C12'),
+    'E-hist': ('C01', 'C03', 'C04', 'C05', 'C06', 'C10', 'C12', 'C13', 'C14', 'C15', 'C16', 'C17', 'C18'),
+}
+
+
+def fallback_enumeration(prop, why):
+    """Quick tier, deductive verdict UNDECIDED (a change the verifier cannot follow): run the bounded enumerations against the real code.
+    A failing case that contradicts `prop` is a real failing input: it is reported as the violation.  No failing case: the verdict stays
+    undecided (a bounded search that finds nothing proves nothing).  Returns (rc, [records])."""
+    names = [n for n in ('E-dmg', 'E-hist') if prop in FALLBACKS[n]]
+    if not names or os.environ.get('VERIF_NO_FALLBACK'):
+        return 2, []
+    print('NOTE: deductive verdict undecided (%s); running the bounded fall-back %s (enumeration against the real code)' % (why[:200], ' + '.join(names)))
+    out = []
+    for n in names:
+        try:
+            recs = kani.run_harnesses(REPO, VERIF, [n])
+        except gen.ToolCondition as e:
+            print('TOOL-CONDITION (fall-back %s): %s' % (n, e))
+            continue
+        k = kani.narrow_tagged(recs[0], prop)
+        out.append(k)
+        if k['status'] == 'FAILURE':
+            rp = kani.write_replay(VERIF, prop, k)
+            print('bounded fall-back %s: a case run on the real code contradicts %s: %s' % (n, prop, k.get('failed_checks', '')[:1200]))
+            print('VIOLATION property=%s replay=%s' % (prop, rp))
+            return 1, out
+        if k['status'] == 'SUCCESS':
+            print('NOTE: fall-back %s found no failing case for %s within its bound (%s); the verdict stays undecided' % (n, prop, k.get('note', 'all cases conform')))
+        else:
+            print('TOOL-CONDITION: fall-back %s: %s %s' % (n, k['status'], (k.get('output_tail') or '')[-600:].replace('\n', ' | ')))
+    return 2, out
+
+
 def main():
     ap = argparse.ArgumentParser()
     ap.add_argument('prop')
@@ -154,6 +191,14 @@ def main():
         print('unknown property', prop); sys.exit(2)
     P = PROPS[prop]
     t0 = time.time()
+    if a.replay:
+        rec0 = json.load(open(a.replay))
+        if str(rec0.get('verifier', '')).startswith('native enumeration') and rec0.get('obligation') in kani.HARNESSES:
+            # replay of a failing case found by an enumeration: run it again against the real code of the current tree
+            k = kani.narrow_tagged(kani.run_harnesses(REPO, VERIF, [rec0['obligation']])[0], prop)
+            if k['status'] == 'FAILURE':
+                print('REPLAY: %s still fails on the current tree: %s' % (rec0['obligation'], k.get('failed_checks', '')[:1500])); sys.exit(1)
+            print('REPLAY: %s: %s on the current tree %s' % (rec0['obligation'], k['status'], k.get('note', ''))); sys.exit(0 if k['status'] == 'SUCCESS' else 2)
     build = os.path.join(VERIF, 'build', 'run-%s' % prop)
     os.makedirs(build, exist_ok=True)
     try:
@@ -162,7 +207,7 @@ def main():
         path = gen.write_outputs(res, build)
     except (gen.ToolCondition, gen.ContractError) as e:
         print('TOOL-CONDITION: %s' % e)
-        sys.exit(2)
+        sys.exit(fallback_enumeration(prop, str(e))[0] if not a.replay else 2)
     extra = []
     if seed:
         extra += ['--smt-option', 'smt.random_seed=%d' % (seed % 1000), '--smt-option', 'sat.random_seed=%d' % (seed % 1000)]
@@ -170,7 +215,7 @@ def main():
     try:
         run = runner.run_verus(path, res, rlimit=rlimit, extra=extra)
     except gen.ToolCondition as e:
-        print('TOOL-CONDITION: %s' % e); sys.exit(2)
+        print('TOOL-CONDITION: %s' % e); sys.exit(fallback_enumeration(prop, str(e))[0] if not a.replay else 2)
     if a.replay:
         rec = json.load(open(a.replay))
         hit = [f for f in run.failures if f.oid == rec.get('obligation')]
@@ -250,7 +295,7 @@ def main():
         wanted = P.get('kani_quick', []) + (P.get('kani_thorough', []) if tier == 'thorough' else [])
         if wanted:
             try:
-                kres = kani.run_harnesses(REPO, VERIF, wanted)
+                kres = [kani.narrow_tagged(k, prop) for k in kani.run_harnesses(REPO, VERIF, wanted)]
             except gen.ToolCondition as e:
                 print('TOOL-CONDITION (kani): %s' % e)
                 run.tool_errors.append('kani: %s' % e)
@@ -357,6 +402,13 @@ def main():
         rc = 1
     if rc == 0 and tool_cond:
         rc = 2
+        if not any(k['name'].startswith('E-hist') or k['name'] == 'E-dmg' for k in kres):
+            rc, fbs = fallback_enumeration(prop, '; '.join(run.tool_errors)[:200] or 'tool condition')
+            if fbs:
+                ev['coverage']['fallback_enumeration'] = [{k_: fb.get(k_) for k_ in ('name', 'status', 'bound', 'seconds', 'failed_checks', 'note', 'other_properties_failing')} for fb in fbs]
+                ev['violations'] += 1 if rc == 1 else 0
+                with open(os.path.join(VERIF, 'evidence', prop + '.json'), 'w') as fh:
+                    json.dump(ev, fh, indent=1)
     if rc == 0:
         print('OK property=%s tier=%s obligations=%d discharged=%d kani=%d (bounded %d) wall=%.1fs' % (
             prop, tier, n_obl, n_dis, len(kani_ok), len(kani_bounded), wall))
